@@ -99,7 +99,9 @@ def rule_parse_specials(col, facts):
             if st[0] == "=" and st[2][0] == "agg" and st[2][1][0] == "tuple":
                 e = rvalue_expr(pps, st[2], 0)
                 ks = [last_seg(k[1]) for k in expr_consts(e) if last_seg(k[1]) in ("NAN", "INFINITY")]
-                getters = {last_seg(x[1]) for x in expr_calls(e) if x[1].endswith(("Options::nan_string", "Options::inf_string", "Options::infinity_string"))}
+                # (the getter's result itself is a component of the tuple - not a count computed from it)
+                comps = [strip_casts(x) for x in e[2]] if e[0] == "agg" else []
+                getters = {last_seg(x[1]) for x in comps if x[0] == "call" and x[1].endswith(("Options::nan_string", "Options::inf_string", "Options::infinity_string"))}
                 if len(ks) == 1 and len(getters) == 1:
                     tabled.append((ks[0], frozenset(getters)))
     if len(tabled) >= 3:
